@@ -43,6 +43,7 @@ func (u unsupportedErr) Error() string { return u.msg }
 
 // VC holds the verification condition of one function under contract.
 type VC struct {
+	keepHyps map[string]bool // assumed intermediate assertions (atcall) that focused renderings keep
 	implVars map[string]specVal // names of the implemented interface contract, bound to this method's parameters
 	eng           *Engine
 	top           *ssa.Function
@@ -406,7 +407,7 @@ func (vc *VC) declElemRef(elem types.Type) string {
 		vc.emit(fmt.Sprintf("(declare-fun %s (Int Int) Int)", fn))
 		vc.emit(fmt.Sprintf("(declare-fun %s.arr (Int) Int)", fn))
 		vc.emit(fmt.Sprintf("(declare-fun %s.idx (Int) Int)", fn))
-		vc.emit(fmt.Sprintf("(assert (forall ((a Int) (i Int)) (! (and (= (%s.arr (%s a i)) a) (= (%s.idx (%s a i)) i) (< (%s a i) 0) (= (root (%s a i)) a) (= (rkind (%s a i)) %d)) :pattern ((%s a i)))))", fn, fn, fn, fn, fn, fn, fn, vc.nextKind(), fn))
+		vc.emit(fmt.Sprintf("(assert (forall ((a Int) (i Int)) (! (and (= (%s.arr (%s a i)) a) (= (%s.idx (%s a i)) i) (< (%s a i) 0) (= (root (%s a i)) (root a)) (= (rkind (%s a i)) %d)) :pattern ((%s a i)))))", fn, fn, fn, fn, fn, fn, fn, vc.nextKind(), fn))
 	}
 	return fn
 }
@@ -505,6 +506,11 @@ func (vc *VC) lookup(st *hstate, name, sort string) string {
 // heap's Go type (ranges of machine integers, well-formed slice headers). Needed for heap reads in
 // specifications; reads in code assume the same facts at each load.
 func (vc *VC) heapTypeAxiom(name, term string, st *hstate) {
+	vc.mapCanonical(name, term, st)
+	if name == "alloc" {
+		// nil is never an allocated object
+		vc.emit(fmt.Sprintf("(assert (not (select %s 0)))", term))
+	}
 	if vc.qf > 0 || vc.topC == nil || !vc.topC.TypedHeap {
 		return
 	}
@@ -644,6 +650,7 @@ type deferred struct {
 }
 
 type frame struct {
+	closureBinds []Val // bindings of the closure being called by contract (set by callFunc for applyContract)
 	vc         *VC
 	fn         *ssa.Function
 	contract   *Contract
@@ -710,6 +717,12 @@ func (f *frame) srcLine(p token.Pos) string {
 // oblige records an obligation at the current point and then assumes it.
 func (f *frame) oblige(kind, key string, props []string, cond string, pos token.Pos) {
 	f.obligeAt(f.R, kind, key, props, cond, pos)
+	if kind == "atcall" && len(cond) > 40 {
+		if f.vc.keepHyps == nil {
+			f.vc.keepHyps = map[string]bool{}
+		}
+		f.vc.keepHyps[cond] = true
+	}
 	f.assume(cond)
 }
 
@@ -896,4 +909,35 @@ func rpo(fn *ssa.Function) []*ssa.BasicBlock {
 		order[i], order[j] = order[j], order[i]
 	}
 	return order
+}
+
+// mapCanonical: every unconstrained version of a map value heap is in the model's canonical form (the value row
+// holds the zero value at absent keys; MakeMap, MapUpdate and delete keep it so).
+func (vc *VC) mapCanonical(name, term string, st *hstate) {
+	if vc.qf > 0 || !strings.HasPrefix(name, "MV.") {
+		return
+	}
+	var ks, zero string
+	if d, ok := vc.eng.heapDescs[name]; ok && d.kind == "mapval" {
+		if !canonicalMapElem(d.t2) {
+			return
+		}
+		ks, zero = vc.sortOf(d.t1), vc.zeroOf(d.t2)
+	} else {
+		// not registered yet: read key and element sorts off the heap's sort
+		srt := vc.heapSort[name]
+		switch {
+		case strings.HasSuffix(srt, " Slice))"):
+			zero = "nil-slice"
+		case strings.HasSuffix(srt, " Iface))"):
+			zero = "nil-iface"
+		default:
+			return
+		}
+		ks = strings.TrimSuffix(strings.TrimPrefix(srt, "(Array Int (Array "), " "+srt[strings.LastIndex(srt, " ")+1:])
+	}
+	hh := "MH." + strings.TrimPrefix(name, "MV.")
+	H := vc.lookup(st, hh, "(Array Int (Array "+ks+" Bool))")
+	vc.emit(fmt.Sprintf("(assert (forall ((m Int) (k %s)) (! (=> (not (select (select %s m) k)) (= (select (select %s m) k) %s)) :pattern ((select (select %s m) k)))))", ks, H, term, zero, term))
+	vc.assumed["map model: the value heap holds the zero value at absent keys (kept by make, update and delete)"] = true
 }
